@@ -14,6 +14,9 @@ use serde_json::{json, Value};
 
 use crate::src::{fnv, mix3, Src};
 
+/// Wall-clock budget for proptest's shrinking of one failure (seconds).
+pub const SHRINK_BUDGET_S: u64 = 90;
+
 pub const STACK: usize = 1 << 30;
 /// A generated case normally takes microseconds; one that runs this long stops the run as inconclusive (exit 2).
 pub const CASE_TIME_LIMIT_S: u64 = 60;
@@ -293,6 +296,7 @@ pub fn catch<F: FnOnce() -> T + std::panic::UnwindSafe, T>(f: F) -> Result<T, St
 /// remove chunks (halving sizes), then zero and halve single bytes.
 pub fn ddmin(mut bytes: Vec<u8>, fails: &dyn Fn(&[u8]) -> bool) -> Vec<u8> {
     let mut budget = 20_000usize;
+    let deadline = Instant::now() + std::time::Duration::from_secs(SHRINK_BUDGET_S);
     // trailing bytes are equivalent to zeros
     loop {
         let mut progress = false;
@@ -300,7 +304,7 @@ pub fn ddmin(mut bytes: Vec<u8>, fails: &dyn Fn(&[u8]) -> bool) -> Vec<u8> {
         while chunk >= 1 && !bytes.is_empty() {
             let mut i = 0;
             while i < bytes.len() {
-                if budget == 0 {
+                if budget == 0 || Instant::now() > deadline {
                     return bytes;
                 }
                 budget -= 1;
@@ -328,7 +332,7 @@ pub fn ddmin(mut bytes: Vec<u8>, fails: &dyn Fn(&[u8]) -> bool) -> Vec<u8> {
                 if cand_v >= bytes[i] {
                     continue;
                 }
-                if budget == 0 {
+                if budget == 0 || Instant::now() > deadline {
                     return bytes;
                 }
                 budget -= 1;
@@ -413,6 +417,7 @@ fn run_bytes_sub(env: &Arc<Env>, sub: &BytesSub) -> SubOutcome {
                 let mut runner = TestRunner::new(cfg);
                 let stats = std::cell::RefCell::new(Stats::new());
                 let failed_here = std::cell::Cell::new(false);
+                let shrink_started: std::cell::Cell<Option<Instant>> = std::cell::Cell::new(None);
                 let first_seen: std::cell::RefCell<Option<(Failure, Vec<u8>)>> = std::cell::RefCell::new(None);
                 let keep_unrepro = keep_unreproducible;
                 let strat = vec(any::<u8>(), 0..=max_len);
@@ -421,6 +426,13 @@ fn run_bytes_sub(env: &Arc<Env>, sub: &BytesSub) -> SubOutcome {
                     // never disturb a shrink that is in progress in this runner
                     if !failed_here.get() && stop.load(Ordering::Relaxed) {
                         return Ok(());
+                    }
+                    // shrinking has a time budget: a failure that shows only now and then
+                    // (schedule, random iteration order) would otherwise be re-tried for hours
+                    if let Some(t0) = shrink_started.get() {
+                        if t0.elapsed().as_secs() > SHRINK_BUDGET_S {
+                            return Ok(());
+                        }
                     }
                     let mut st = stats.borrow_mut();
                     let mut src = Src::new(&bytes);
@@ -436,6 +448,9 @@ fn run_bytes_sub(env: &Arc<Env>, sub: &BytesSub) -> SubOutcome {
                             } else {
                                 st.frozen = true;
                                 failed_here.set(true);
+                                if shrink_started.get().is_none() {
+                                    shrink_started.set(Some(Instant::now()));
+                                }
                                 if first_seen.borrow().is_none() {
                                     *first_seen.borrow_mut() = Some((fail.clone(), bytes.clone()));
                                 }
@@ -445,6 +460,9 @@ fn run_bytes_sub(env: &Arc<Env>, sub: &BytesSub) -> SubOutcome {
                         Err(p) => {
                             st.frozen = true;
                             failed_here.set(true);
+                            if shrink_started.get().is_none() {
+                                shrink_started.set(Some(Instant::now()));
+                            }
                             // a panic raised inside the library under test is a finding, not a harness problem
                             if panic_is_in_library(&p) {
                                 if first_seen.borrow().is_none() {
